@@ -936,7 +936,7 @@ func main() {
 	}
 
 	// ---- ROI (HTTP) ----
-	nroi := 10 * mul
+	nroi := 21 * mul
 	for i := 0; i < nroi; i++ {
 		bs := []int32{int32(rng.Pick(4, 8, 8)), int32(rng.Pick(4, 8, 2)), int32(rng.Pick(4, 8, 3))}
 		spans := genSpans(rng, 1+rng.Intn(7))
@@ -963,6 +963,9 @@ func main() {
 			s := spans[rng.Intn(len(spans))]
 			size := []int32{int32(1 + rng.Intn(12)), int32(1 + rng.Intn(9)), int32(1 + rng.Intn(7))}
 			off := []int32{s[2]*bs[0] - int32(rng.Intn(6)), s[1]*bs[1] - int32(rng.Intn(5)), s[0]*bs[2] - int32(rng.Intn(4))}
+			if rng.Chance(0.3) { // straddle the origin
+				off = []int32{-int32(rng.Intn(7)), -int32(rng.Intn(5)), -int32(rng.Intn(4))}
+			}
 			dispatch(jcase{Kind: "mask", Size: bs, Off: off, Q: size, Spans: spans})
 		}
 	}
